@@ -81,7 +81,8 @@ def run(prog, rep, tier):
     if new_mods:
         rep.notes.append("modules outside the scope the property was stated for (not judged): %s" % ", ".join(new_mods))
     funcs = [f for f in prog.funcs.values() if f.module.name in SCOPE_MODULES
-             and not (f.name.startswith("_") and not f.name.startswith("__") and f.qname not in ("sempler.semi._bootstrap", "sempler.lganm._parse_interventions"))]
+             and not (f.name.startswith("_") and not f.name.startswith("__") and f.qname not in ("sempler.semi._bootstrap", "sempler.lganm._parse_interventions"))
+             and not (f.cls and f.cls.startswith("_") and not f.cls.startswith("__"))]       # methods of private classes are internal: judged through the public callers that use them
     if tier == "thorough":
         funcs += [f for f in prog.funcs.values() if f.module.name.startswith("drf")]
     O = OW.Own(prog)
